@@ -346,6 +346,27 @@ func checkC20(c *Ctx, r *Report) {
 	checkTwosPrimitive(c, r)
 	checkPackedDecoders(c, r)
 
+	// the primitives at their points of use: the IPMI checksum is computed over the specified
+	// byte ranges of the message being serialised (layout shared with C06/C03) ...
+	r.Rule("checksum-on-the-wire", "the message serialiser writes checksum(bytes 0..1) as checksum 1 and checksum(byte 3 … last data byte) as checksum 2, over bytes it has written", 4)
+	for _, sp := range shapedRequestSpecs {
+		sub := sp
+		sub.Want = map[string][]string{}
+		for k, v := range sp.Want {
+			for _, e := range v {
+				if strings.HasPrefix(e, "checksum:") {
+					sub.Want[k] = v
+				}
+			}
+		}
+		if len(sub.Want) > 0 {
+			compareSpec(c, r, []layerSpec{sub}, "wire", nil)
+		}
+	}
+	// ... and the analog-format parsers and the conversion formula are applied to the raw byte of
+	// the response on every read (rule shared with C15)
+	checkSensorRead(c, r)
+
 	r.Rule("bcd-normal-form", "bcd.Decode(b) = 10·b[7:4] + b[3:0]", 1)
 	if f := c.Func("internal/pkg/bcd", "Decode"); f == nil {
 		r.Lost("bcd.Decode")
